@@ -1,5 +1,35 @@
 package rules
 
-import "sort"
+import (
+	"sort"
+
+	"fpcheck/internal/core"
+
+	"golang.org/x/tools/go/ssa"
+)
 
 func sortStrings(s []string) { sort.Strings(s) }
+
+// edgeStart returns the successor block taken when the first branch whose (normalised) condition
+// satisfies isFlag evaluates to want; nil if there is no such branch.
+func edgeStart(f *ssa.Function, isFlag func(ssa.Value) bool, want bool) *ssa.BasicBlock {
+	for _, b := range f.Blocks {
+		if len(b.Instrs) == 0 {
+			continue
+		}
+		iff, ok := b.Instrs[len(b.Instrs)-1].(*ssa.If)
+		if !ok {
+			continue
+		}
+		n := core.Normalize(core.Cond{V: iff.Cond, True: true})
+		if !isFlag(n.V) {
+			continue
+		}
+		// cond == n.True ⇔ flag true
+		if n.True == want {
+			return b.Succs[0]
+		}
+		return b.Succs[1]
+	}
+	return nil
+}
